@@ -18,7 +18,7 @@ PROPERTY = "C19"
 HANG_SECONDS = 900.0
 LINE_BUDGET = 20000000000
 RULE = ("The working tree is copied to a scratch directory and built with the documented `make ACC=pycc LANGUAGE=fortran "
-        "pycc` (thorough: also LANGUAGE=c); a failing build is a violation.  Hypothesis generates batches of calls to every "
+        "pycc` and with `LANGUAGE=c` (both tiers); a failing build is a violation.  Hypothesis generates batches of calls to every "
         "exported kernel of the five accelerated modules (degrees 1-5, clamped/periodic/uniform knots, evaluation points on "
         "cell edges / end points / one ulp inside, der in {0,1}^2, negative theta before the modulo, the three boundary "
         "modes, both time schemes, both nulBound values, float and complex rho); every batch is executed by the interpreted "
@@ -51,8 +51,12 @@ def prepare_run(tier):
         out["errors"].append("build tools missing (make/gfortran)")
         return out
     dirs = []
-    for lang in (["fortran"] if tier == "quick" else ["fortran", "c"]):
-        d, dst, r = _build(lang)
+    # both documented back ends in both tiers (built side by side)
+    from concurrent.futures import ThreadPoolExecutor
+    langs = ["fortran", "c"]
+    with ThreadPoolExecutor(max_workers=2) as ex:
+        built = list(ex.map(_build, langs))
+    for lang, (d, dst, r) in zip(langs, built):
         dirs.append(d)
         sos = [f for root, _, fs in os.walk(dst) for f in fs if f.endswith(".so")]
         if r.returncode != 0 or len(sos) < 5:
@@ -131,6 +135,8 @@ def compare(calls, ref, other, what):
             continue
         if o[0] == "missing-function":
             continue          # function sets are compared by the "exports" sub-check
+        if o[0] == "skipped-hang":
+            continue          # see _run_external: elapsed time is never a verdict
         if o[0] == "missing-module":
             raise Violation("C19:%s:import" % what, "%s: module for %s cannot be loaded: %s" % (what, tag, o[1]))
         if o[0] == "nontermination":
@@ -162,14 +168,30 @@ def _run_external(calls, repo, flavour, tmp):
             pickle.dump(calls, f)
     env = bootstrap.worker_env({"VERIF_REPO": repo})
     cmd = [bootstrap.PYTHON, "-m", "pgv.kernels", "--run", inp, outp, "--flavour", flavour]
-    try:
-        r = subprocess.run(cmd, cwd=bootstrap.VERIF, env=env, capture_output=True, text=True, timeout=90)
-    except subprocess.TimeoutExpired:
-        # never a verdict by itself: repeat under a deterministic line-event budget per call (interpreted code only;
-        # a hang inside compiled code cannot be counted and stays inconclusive)
+    skip = []
+    while True:
+        try:
+            r = subprocess.run(cmd + (["--skip", ",".join(str(i) for i in skip)] if skip else []), cwd=bootstrap.VERIF, env=env,
+                               capture_output=True, text=True, timeout=90)
+            break
+        except subprocess.TimeoutExpired:
+            pass
+        # never a verdict by itself.  Interpreted flavours: repeat under a deterministic line-event budget per call.
+        # Compiled flavours (a hang inside compiled code cannot be counted): leave out the call the run was in and run the
+        # rest of the batch, whose results are compared as usual; the value comparisons decide, the hang itself does not.
+        if flavour == "ref":
+            idx = None
+            if os.path.exists(outp + ".progress"):
+                with open(outp + ".progress") as pf:
+                    idx = int(pf.read().split()[0])
+            if idx is None or idx in skip or len(skip) >= 4:
+                raise RuntimeError("kernel runner (%s) does not finish even with calls %s left out (inconclusive)" % (flavour, skip))
+            skip.append(idx)
+            continue
         try:
             r = subprocess.run(cmd + ["--budget", "30000000"], cwd=bootstrap.VERIF, env=env, capture_output=True, text=True,
                                timeout=3600)
+            break
         except subprocess.TimeoutExpired:
             raise RuntimeError("kernel runner (%s) did not finish even under the line budget (inconclusive)" % flavour)
     if r.returncode in (-4, -6, -7, -8, -11):
